@@ -235,8 +235,18 @@ def _install_spin_detector():
 
     resumes = _resumes
 
-    def resumed(code, offset, *_):
-        resumes[0] += 1
+    def resumed(code, offset):
+        # frames of a chain of awaits: coroutines, async generators and `__await__` generators
+        # (not the plain generators / generator expressions that builtins iterate over)
+        if code.co_flags & 0x380 or code.co_name == '__await__':
+            resumes[0] += 1
+
+    def thrown(code, offset, exception):
+        # (closing is not resuming: a crowd of suspended coroutines that is dropped at once is
+        # finalised - GeneratorExit thrown into each - without a single call in between)
+        if type(exception) is not GeneratorExit and (
+                code.co_flags & 0x380 or code.co_name == '__await__'):
+            resumes[0] += 1
 
     def started(code, offset):
         if resumes[0]:
@@ -257,7 +267,7 @@ def _install_spin_detector():
                 raise HarnessAbort('spin')
     mon.register_callback(tool, mon.events.PY_START, started)
     mon.register_callback(tool, mon.events.PY_RESUME, resumed)
-    mon.register_callback(tool, mon.events.PY_THROW, resumed)
+    mon.register_callback(tool, mon.events.PY_THROW, thrown)
     mon.set_events(tool, mon.events.PY_START | mon.events.PY_RESUME | mon.events.PY_THROW)
     return True
 
